@@ -2930,4 +2930,100 @@ theorem mpz_powm_ui_small (b : Int) (el : Nat) (m : Int) (h20 : el < 20) :
             rw [hb]; exact hq
 
 
+
+/-! ### the specification's modular inverse -/
+
+theorem xgcdAux_spec (a : Int) (m : Nat) : ∀ (r : Nat) (s : Int) (r' : Nat) (s' : Int),
+    (r : Int) ≡ s * a [ZMOD (m : Int)] → (r' : Int) ≡ s' * a [ZMOD (m : Int)] →
+    ((xgcdAux r s r' s').1 : Int) ≡ (xgcdAux r s r' s').2 * a [ZMOD (m : Int)] ∧
+    (xgcdAux r s r' s').1 = Nat.gcd r r' := by
+  intro r
+  induction r using Nat.strong_induction_on with
+  | _ r ih =>
+    intro s r' s' h1 h2
+    cases r with
+    | zero =>
+      rw [xgcdAux.eq_def]
+      simp only [Nat.gcd_zero_left]
+      exact ⟨h2, trivial⟩
+    | succ k =>
+      rw [xgcdAux.eq_def]
+      simp only
+      have hlt : r' % (k + 1) < k + 1 := Nat.mod_lt _ (Nat.succ_pos _)
+      have h3 : ((r' % (k + 1) : Nat) : Int) ≡ (s' - ((r' / (k + 1) : Nat) : Int) * s) * a [ZMOD (m : Int)] := by
+        have e : ((r' % (k + 1) : Nat) : Int) = (r' : Int) - ((r' / (k + 1) : Nat) : Int) * ((k + 1 : Nat) : Int) := by
+          have := Nat.div_add_mod r' (k + 1)
+          have h' : ((r' : Nat) : Int) = ((k + 1 : Nat) : Int) * ((r' / (k + 1) : Nat) : Int) + ((r' % (k + 1) : Nat) : Int) := by
+            exact_mod_cast this.symm
+          rw [h']; ring
+        rw [e]
+        have : (s' - ((r' / (k + 1) : Nat) : Int) * s) * a = s' * a - ((r' / (k + 1) : Nat) : Int) * (s * a) := by ring
+        rw [this]
+        exact h2.sub (h1.mul_left _)
+      obtain ⟨i1, i2⟩ := ih (r' % (k + 1)) hlt _ (k + 1) s h3 h1
+      refine ⟨i1, ?_⟩
+      rw [i2, Nat.gcd_rec (k + 1) r']
+
+theorem modInv_eq (a : Int) (m : Nat) :
+    modInv? a m = if (xgcdAux (a % (m : Int)).toNat 1 m 0).1 = 1
+      then some ((xgcdAux (a % (m : Int)).toNat 1 m 0).2 % (m : Int)).toNat else none := rfl
+
+/-- `modInv?` returns the inverse in `[0,m)` when it returns something … -/
+theorem modInv_sound (a : Int) (m : Nat) (hm : 0 < m) (x : Nat) (h : modInv? a m = some x) :
+    x < m ∧ (a * x) % (m : Int) = 1 % (m : Int) := by
+  rw [modInv_eq] at h
+  have hmi : (0 : Int) < m := by exact_mod_cast hm
+  have h1 : (((a % (m : Int)).toNat : Nat) : Int) ≡ 1 * a [ZMOD (m : Int)] := by
+    rw [Int.toNat_of_nonneg (Int.emod_nonneg _ (ne_of_gt hmi)), one_mul]
+    exact Int.mod_modEq _ _
+  have h2 : ((m : Nat) : Int) ≡ 0 * a [ZMOD (m : Int)] := by
+    rw [zero_mul]; exact Int.modEq_zero_iff_dvd.mpr (dvd_refl _)
+  obtain ⟨s1, s2⟩ := xgcdAux_spec a m _ 1 m 0 h1 h2
+  generalize xgcdAux (a % (m : Int)).toNat 1 m 0 = res at *
+  obtain ⟨g, s⟩ := res
+  simp only at h s1 s2
+  by_cases hg : g = 1
+  · simp only [hg, if_true, Option.some.injEq] at h
+    subst h
+    have hnn : 0 ≤ s % (m : Int) := Int.emod_nonneg _ (ne_of_gt hmi)
+    have hlt : s % (m : Int) < m := Int.emod_lt_of_pos _ hmi
+    refine ⟨by omega, ?_⟩
+    rw [Int.toNat_of_nonneg hnn]
+    have : a * (s % (m : Int)) ≡ 1 [ZMOD (m : Int)] := by
+      have h3 : a * (s % (m : Int)) ≡ a * s [ZMOD (m : Int)] := (Int.mod_modEq _ _).mul_left _
+      rw [hg] at s1
+      have h4 : a * s = s * a := by ring
+      rw [h4] at h3
+      exact h3.trans (by exact_mod_cast s1.symm)
+    exact this
+  · simp [hg] at h
+
+/-- … and returns nothing only when `a` is not invertible modulo `m`. -/
+theorem modInv_none (a : Int) (m : Nat) (hm : 0 < m) (h : modInv? a m = none) : Int.gcd a m ≠ 1 := by
+  rw [modInv_eq] at h
+  have hmi : (0 : Int) < m := by exact_mod_cast hm
+  have h1 : (((a % (m : Int)).toNat : Nat) : Int) ≡ 1 * a [ZMOD (m : Int)] := by
+    rw [Int.toNat_of_nonneg (Int.emod_nonneg _ (ne_of_gt hmi)), one_mul]
+    exact Int.mod_modEq _ _
+  have h2 : ((m : Nat) : Int) ≡ 0 * a [ZMOD (m : Int)] := by
+    rw [zero_mul]; exact Int.modEq_zero_iff_dvd.mpr (dvd_refl _)
+  obtain ⟨_, s2⟩ := xgcdAux_spec a m _ 1 m 0 h1 h2
+  generalize xgcdAux (a % (m : Int)).toNat 1 m 0 = res at *
+  obtain ⟨g, s⟩ := res
+  simp only at h s2
+  by_cases hg : g = 1
+  · simp [hg] at h
+  · intro hgcd
+    apply hg
+    rw [s2]
+    -- gcd ((a % m).toNat) m = gcd a m
+    have e : Int.gcd a m = Nat.gcd (a % (m : Int)).toNat m := by
+      have h3 : Int.gcd a m = Int.gcd (a % (m : Int)) m := (Int.gcd_emod a m).symm
+      rw [h3]
+      have hnn : 0 ≤ a % (m : Int) := Int.emod_nonneg _ (ne_of_gt hmi)
+      conv_lhs => rw [← Int.toNat_of_nonneg hnn]
+      exact Int.gcd_natCast_natCast _ _
+    rw [← e]; exact hgcd
+
+
 end Mpir.Powm
